@@ -81,16 +81,16 @@ fn main() {
             let b = props::Budget { scenarios: base * scale, thorough };
             let t0 = std::time::Instant::now();
             let run = std::panic::catch_unwind(std::panic::AssertUnwindSafe(|| { let c = &mut c; match prop.as_str() {
-                "C01" => { props::c01(c, &b); props2::special_other(c, &b, "C01"); props5::constructor_variants(c, &b); props_enum::run(c, "C01", &b); }
-                "C02" => { props::c02(c, &b); props2::deep_elision(c, &b, "C02"); props2::special_elision(c, &b, "C02"); props5::elision_variants(c, &b); props_enum::run(c, "C02", &b); }
+                "C01" => { props::c01(c, &b); props2::special_other(c, &b, "C01"); props::node_sizes(c, &b, "C01"); props5::constructor_variants(c, &b); props_enum::run(c, "C01", &b); }
+                "C02" => { props::c02(c, &b); props2::deep_elision(c, &b, "C02"); props2::special_elision(c, &b, "C02"); props2::special_other(c, &b, "C02"); props5::elision_variants(c, &b); props_enum::run(c, "C02", &b); }
                 "C03" => { props2::c03(c, &b); props2::special_elision(c, &b, "C03"); props5::elision_variants(c, &b); props_enum::run(c, "C03", &b); }
-                "C04" => { props::c04(c, &b); props2::special_other(c, &b, "C04"); props::c04_spliced(c, &b); props_enum::run(c, "C04", &b); }
-                "C05" => { props::c05(c, &b); props2::deep_other(c, &b, "C05"); props2::special_other(c, &b, "C05"); props5::decode_variants(c, &b); props_enum::run(c, "C05", &b); }
+                "C04" => { props::c04(c, &b); props2::special_other(c, &b, "C04"); props::node_sizes(c, &b, "C04"); props::c04_spliced(c, &b); props_enum::run(c, "C04", &b); }
+                "C05" => { props::c05(c, &b); props2::deep_other(c, &b, "C05"); props2::special_other(c, &b, "C05"); props::typed_text_routes(c, &b, "C05"); props5::decode_variants(c, &b); props_enum::run(c, "C05", &b); }
                 "C06" => props::c06(c, &b),
-                "C07" => { props::c07(c, &b); props5::assertion_variants(c, &b); }
+                "C07" => { props::c07(c, &b); props::typed_text_routes(c, &b, "C07"); props5::assertion_variants(c, &b); }
                 "C08" => { props2::c08(c, &b); props2::deep_other(c, &b, "C08"); props2::special_other(c, &b, "C08"); props2::special_elision(c, &b, "C08"); }
                 "C09" => { props4::c09(c, &b); props4::c09_glue(c, &b); props5::signature_variants(c, &b); }
-                "C10" => { props4::c10(c, &b); props4::c10_model(c, &b); props5::recipient_variants(c, &b); }
+                "C10" => { props4::c10(c, &b); props4::c10_model(c, &b); props5::recipient_variants(c, &b); props2::deep_other(c, &b, "C10"); }
                 "C11" => { props4::c11(c, &b); props4::c11_model(c, &b); }
                 "C12" => { props2::c12(c, &b); props2::deep_other(c, &b, "C12"); props_enum::run(c, "C12", &b); }
                 "C13" => { props2::c13(c, &b); props2::deep_other(c, &b, "C13"); props2::special_other(c, &b, "C13"); }
